@@ -320,6 +320,35 @@ let () =
                              coq_list coq_event evs ^ ",\n   " ^ coq_list coq_reply rs ^ ",\n   " ^ coq_dump ds ^ ")") :: !coq_cases
          | _ -> ());
         Mlutil.print_model model_outs verdict
+    | "overlap", [fl; init; steps] ->
+        (* connections open at the same time on one server: they share nothing but the store *)
+        let fl' = if fl = "file" then File else Mem in
+        let st0 = parse_init 0 init in
+        let tbl : (string, world) Hashtbl.t = Hashtbl.create 4 in
+        let store = ref st0 in
+        let res = ref [] in
+        List.iter (fun step ->
+          let (k, l) = split2 step in
+          let w = (match Hashtbl.find_opt tbl k with
+                   | Some w -> w
+                   | None -> res := ("G" ^ k ^ field_of_reply r_plus) :: !res; init_world !store) in
+          let w = { w with w_store = !store } in
+          if (match w.w_sess.s_state with Closed -> true | _ -> false) then begin
+            res := ("CLOSED" ^ k) :: !res; Hashtbl.replace tbl k w
+          end else begin
+            let n = List.length w.w_out in
+            let w' = wstep fl' w (ELine (fstr l)) in
+            store := w'.w_store;
+            Hashtbl.replace tbl k w';
+            (match List.nth_opt w'.w_out n with
+             | Some r -> res := ("R" ^ k ^ field_of_reply r) :: !res
+             | None -> res := ("NOREPLY" ^ k) :: !res)
+          end) (if steps = "-" then [] else String.split_on_char ',' steps);
+        let verdict =
+          if List.exists (fun o -> String.length o >= 7 && String.sub o 0 7 = "BLOCKED") outs then "fail:command-got-no-reply-session-wedged"
+          else if List.exists (fun o -> String.length o >= 7 && String.sub o 0 7 = "NOREPLY") outs then "fail:reply-count"
+          else (match outs with "PANIC" :: _ -> "fail:server-panic" | _ -> "ok") in
+        Mlutil.print_model (List.rev !res) verdict
     | "tls", [en; init; sessions] ->
         (* several connections to ONE server with STLS configured (or not); Coq's tsessions *)
         let tc = { t_enabled = (en = "1"); t_force = false } in
